@@ -314,6 +314,8 @@ def loss_case(draw, driver=None):
     events = []
     if how == "write_fails":
         events.append({"t": t_loss, "what": "write_fails"})
+        if draw(st.booleans()):
+            events[-1]["nth"] = draw(st.integers(1, 4))      # not at a quiescent point: the n-th write from then on
     elif how == "silent":
         events.append({"t": t_loss, "what": "lose", "notify": False})
         events.append({"t": t_loss + draw(st.sampled_from([0.001, 0.05, 0.4])), "what": "hup"})
@@ -392,6 +394,13 @@ def cancel_case(draw, driver=None):
             oc = draw(st.sampled_from([["silent"], ["silent"], ["value", 0x17 + j]]))
             cmds[j] = {"k": ["qstatus", "qlevel", "qpresent"][j], "a": 20 + j, "oc": oc}
     callers.append({"kind": "seq", "cmds": cmds, "t0": draw(st.sampled_from([0.0, 0.03, 0.2]))})
+    if drv == "hasseb" and draw(st.booleans()):
+        # an abandoned QUERY on hasseb is judged when its late report arrives while nobody is waiting (the follow-up
+        # traffic starts well after it): the report must then be forgotten, not handed to the next query
+        callers[0]["cmds"][0] = _cmd(draw, 3, Q)
+        callers[0]["cancel"] = draw(st.sampled_from([0.0001, 0.002, 0.01, 0.02]))
+        callers[0].pop("cancel_with_report", None)
+        callers[1]["t0"] = 0.2
     case = {"family": "cancel", "driver": drv, "callers": callers, "lat": draw(st.lists(st.floats(0, 0.999), max_size=8)),
             "tie": draw(st.booleans()), "drain_virtual": 120.0}
     if drv == "tridonic":
@@ -405,7 +414,8 @@ def mute_case(draw, driver=None):
     callers = []
     for ci in range(draw(st.integers(1, 3))):
         kind = draw(st.sampled_from(["send", "seq"]))
-        cmds = [_cmd(draw, 2 + ci * 9 + j, Q + ["dapc", "reset"]) for j in range(1 if kind == "send" else draw(st.integers(1, 3)))]
+        cmds = [_cmd(draw, 2 + ci * 9 + j, Q + ["dapc", "reset", "dtcmd", "dtquery", "dttwice"])
+                for j in range(1 if kind == "send" else draw(st.integers(1, 3)))]
         callers.append({"kind": kind, "cmds": cmds, "t0": draw(st.sampled_from([0.0, 0.01, 0.05, 0.3]))})
     what = draw(st.sampled_from(["mute", "mute_answers", "mute_mid"]))
     if what == "mute_mid":
